@@ -297,4 +297,142 @@ theorem logOf_run_of_untouched (F : Bool) (s : St) (hs : WF s) (ops : List Op) (
     rw [this]
     exact logOf_step_of_not_touches F s hs op d hd hu.1
 
+/-! ### closed form: what a context logs = what its logger had + what was added through sharers -/
+
+/-- context `c` has a logger and it is the logger context `d` uses -/
+def shares (s : St) (c d : Nat) : Bool :=
+  match holderOf s.ctxs c, holderOf s.ctxs d with
+  | some h, some k => h == k
+  | _, _ => false
+
+/-- the fields a call adds to the logger of context `d` -/
+def fieldsAdded (s : St) (op : Op) (d : Nat) : List Field :=
+  match op with
+  | .withFields c fs => if shares s c d then fs else []
+  | _ => []
+
+/-- the level a call sets on the logger of context `d` -/
+def levelSet (s : St) (op : Op) (d : Nat) : Option Level :=
+  match op with
+  | .setLevel c l => if shares s c d then some l else none
+  | .enableDebug c => if shares s c d then some debugLevel else none
+  | _ => none
+
+/-- all fields added to the logger of `d` by a call sequence, through any context sharing it -/
+def addedSince (F : Bool) : St → List Op → Nat → List Field
+  | _, [], _ => []
+  | s, op :: ops, d => fieldsAdded s op d ++ addedSince F (step F s op) ops d
+
+/-- the level most recently set on the logger of `d` by a call sequence, if any -/
+def lastLevelSince (F : Bool) : St → List Op → Nat → Option Level
+  | _, [], _ => none
+  | s, op :: ops, d => (lastLevelSince F (step F s op) ops d).orElse (fun _ => levelSet s op d)
+
+theorem shares_iff (s : St) (c d : Nat) :
+    shares s c d = true ↔ ∃ h, holderOf s.ctxs c = some h ∧ holderOf s.ctxs d = some h := by
+  unfold shares
+  cases holderOf s.ctxs c <;> cases holderOf s.ctxs d <;> simp
+  exact eq_comm
+
+theorem not_touches_of_not_shares (s : St) (op : Op) (c d : Nat) (ht : op.target = some c)
+    (h : shares s c d = false) : ¬ touches s op d := by
+  rintro ⟨t, k, h1, h2, h3⟩
+  rw [ht] at h1; cases h1
+  have := (shares_iff s c d).2 ⟨k, h2, h3⟩
+  rw [h] at this; cases this
+
+/-- a modifying call made through a context that shares `d`'s logger changes what `d` logs by `f` -/
+theorem logOf_update_shares (s : St) (hs : WF s) (c d : Nat) (f : Core → Core) (hd : d < s.ctxs.length)
+    (h : shares s c d = true) : logOf (update s c f) d = f (logOf s d) := by
+  obtain ⟨k, hc, hdk⟩ := (shares_iff s c d).1 h
+  have hk := hs d k hdk
+  have hgd : getOrDefault s c = ((s.holders[k]?).getD s.global, some k) := by
+    unfold getOrDefault; simp [hc]
+  unfold update
+  rw [hgd]
+  simp only
+  rw [logOf_eq, logOf_eq]
+  simp only
+  rw [holderOf_append_lt _ _ _ hd, hdk]
+  simp [hk]
+
+theorem written_loggerWith (c : Core) (fs : List Field) : (loggerWith true c fs).written = c.written ++ fs :=
+  congrArg LSpec.fields (abs_loggerWith c fs)
+
+theorem level_loggerWith (c : Core) (fs : List Field) : (loggerWith true c fs).level = c.level :=
+  congrArg LSpec.level (abs_loggerWith c fs)
+
+/-- one call: fields -/
+theorem written_step (s : St) (hs : WF s) (op : Op) (d : Nat) (hd : d < s.ctxs.length) :
+    (logOf (step true s op) d).written = (logOf s d).written ++ fieldsAdded s op d := by
+  cases op with
+  | withFields c fs =>
+    simp only [fieldsAdded]
+    by_cases h : shares s c d = true
+    · simp only [h, if_true, step]
+      rw [logOf_update_shares s hs c d _ hd h, written_loggerWith]
+    · have h' : shares s c d = false := by simpa using h
+      simp only [h', Bool.false_eq_true, if_false, List.append_nil]
+      rw [logOf_step_of_not_touches true s hs _ d hd (not_touches_of_not_shares s _ c d rfl h')]
+  | setLevel c l =>
+    simp only [fieldsAdded, List.append_nil]
+    by_cases h : shares s c d = true
+    · simp only [step, setLevel]
+      rw [logOf_update_shares s hs c d _ hd h]; rfl
+    · have h' : shares s c d = false := by simpa using h
+      rw [logOf_step_of_not_touches true s hs _ d hd (not_touches_of_not_shares s _ c d rfl h')]
+  | enableDebug c =>
+    simp only [fieldsAdded, List.append_nil]
+    by_cases h : shares s c d = true
+    · simp only [step, setLevel]
+      rw [logOf_update_shares s hs c d _ hd h]; rfl
+    · have h' : shares s c d = false := by simpa using h
+      rw [logOf_step_of_not_touches true s hs _ d hd (not_touches_of_not_shares s _ c d rfl h')]
+  | init c fs =>
+    simp only [fieldsAdded, List.append_nil]
+    rw [logOf_step_of_not_touches true s hs _ d hd (by rintro ⟨t, k, h1, _⟩; simp [Op.target] at h1)]
+  | child c fs =>
+    simp only [fieldsAdded, List.append_nil]
+    rw [logOf_step_of_not_touches true s hs _ d hd (by rintro ⟨t, k, h1, _⟩; simp [Op.target] at h1)]
+  | derive c =>
+    simp only [fieldsAdded, List.append_nil]
+    rw [logOf_step_of_not_touches true s hs _ d hd (by rintro ⟨t, k, h1, _⟩; simp [Op.target] at h1)]
+
+/-- one call: level -/
+theorem level_step (s : St) (hs : WF s) (op : Op) (d : Nat) (hd : d < s.ctxs.length) :
+    (logOf (step true s op) d).level = (levelSet s op d).getD (logOf s d).level := by
+  cases op with
+  | withFields c fs =>
+    simp only [levelSet, Option.getD_none]
+    by_cases h : shares s c d = true
+    · simp only [step]
+      rw [logOf_update_shares s hs c d _ hd h, level_loggerWith]
+    · have h' : shares s c d = false := by simpa using h
+      rw [logOf_step_of_not_touches true s hs _ d hd (not_touches_of_not_shares s _ c d rfl h')]
+  | setLevel c l =>
+    simp only [levelSet]
+    by_cases h : shares s c d = true
+    · simp only [h, if_true, step, setLevel, Option.getD_some]
+      rw [logOf_update_shares s hs c d _ hd h]; rfl
+    · have h' : shares s c d = false := by simpa using h
+      simp only [h', Bool.false_eq_true, if_false, Option.getD_none]
+      rw [logOf_step_of_not_touches true s hs _ d hd (not_touches_of_not_shares s _ c d rfl h')]
+  | enableDebug c =>
+    simp only [levelSet]
+    by_cases h : shares s c d = true
+    · simp only [h, if_true, step, setLevel, Option.getD_some]
+      rw [logOf_update_shares s hs c d _ hd h]; rfl
+    · have h' : shares s c d = false := by simpa using h
+      simp only [h', Bool.false_eq_true, if_false, Option.getD_none]
+      rw [logOf_step_of_not_touches true s hs _ d hd (not_touches_of_not_shares s _ c d rfl h')]
+  | init c fs =>
+    simp only [levelSet, Option.getD_none]
+    rw [logOf_step_of_not_touches true s hs _ d hd (by rintro ⟨t, k, h1, _⟩; simp [Op.target] at h1)]
+  | child c fs =>
+    simp only [levelSet, Option.getD_none]
+    rw [logOf_step_of_not_touches true s hs _ d hd (by rintro ⟨t, k, h1, _⟩; simp [Op.target] at h1)]
+  | derive c =>
+    simp only [levelSet, Option.getD_none]
+    rw [logOf_step_of_not_touches true s hs _ d hd (by rintro ⟨t, k, h1, _⟩; simp [Op.target] at h1)]
+
 end Log
